@@ -407,6 +407,25 @@ def run_one(seed, tape, opts):
             V("C07.different_links", "both connect() results are the two ends "
               "of one link", "sender link %d, receiver link %d" %
               (es.link.serial, er.link.serial))
+    # (e') the losers are closed when the decision is made, not merely when
+    # their own 60 s handshake timer fires
+    if not viol and r == "until" and (sw is not None or rw is not None):
+        sim.run(400, max_time=2.0)
+        for p, win in ((S, es), (R, er)):
+            if p.result is None or p.result[0] != "ok":
+                continue
+            for end, c in party_conns(p):
+                if end is win or not end.made:
+                    continue
+                if end.alive and not end.transport.disconnecting:
+                    V("C07.loser_left_open", "every other connection is "
+                      "closed (once connect() has returned the winner)",
+                      "%s: %.1f s after connect() returned, link %d (peer %s) "
+                      "is still open in state %r" %
+                      (p.name, sim.now() - p.connect_fired_at,
+                       end.link.serial, _oname(w.owner_of_end(end.peer)),
+                       c.state))
+                    break
     # (e) everything else closed, listeners stopped -- after the per-connection
     # timeout has had time to fire
     if not viol and r == "until":
